@@ -757,8 +757,72 @@ fn collection_laws() -> usize {
     bad
 }
 
+const FORMAT_NUMBER_CASES: &[(&str, Option<i64>)] = &[
+    ("1.5", None), ("1.5", Some(-1)), ("1.5", Some(i64::MIN)), ("1.5", Some(0)), ("1.5", Some(3)), ("1.25", Some(1)),
+    ("100", Some(-7)), ("100", Some(2)), ("-3", Some(-1)),
+    ("to_float!(\"inf\")", None), ("to_float!(\"-inf\")", Some(2)), ("to_float!(\"1e30\")", Some(1)), ("to_float!(\"-1e300\")", None),
+    ("to_float!(\"7.9e27\")", Some(2)),
+];
+
+/// One case, in this process (may panic or never return: only ever run as a watched child).
+fn format_number_case(i: usize) -> usize {
+    let (v, scale) = FORMAT_NUMBER_CASES[i];
+    let src = match scale { Some(s) => format!("format_number({v}, scale: {})", lit(s)), None => format!("format_number({v})") };
+    match run_vrl(&src, Value::Object(BTreeMap::new())) {
+        Ok((Value::Bytes(b), _)) => {
+            let text = String::from_utf8_lossy(&b).into_owned();
+            let frac = text.split_once('.').map(|(_, f)| f.len() as i64);
+            let ok = match scale { Some(s) if s <= 0 => frac.is_none(), Some(s) => frac == Some(s), None => true };
+            if !ok {
+                fail("format_number", &src, &format!("exactly max(scale, 0) fraction digits"), &text);
+                return 1;
+            }
+            0
+        }
+        other => { fail("format_number", &src, "Ok(string)", &format!("{other:?}")); 1 }
+    }
+}
+
+/// C04/C05 witness: every case runs in a child process under a 10 s watchdog and a 2 GB address-space
+/// limit, so a panic, a hang or unbounded growth of the real function is observed, not suffered.
+fn format_number() -> usize {
+    let exe = std::env::current_exe().expect("own path");
+    let mut bad = 0;
+    for (i, (v, scale)) in FORMAT_NUMBER_CASES.iter().enumerate() {
+        let mut child = std::process::Command::new("sh")
+            .arg("-c").arg(format!("ulimit -v 2000000; exec {} format_number_case {}", exe.display(), i))
+            .stderr(std::process::Stdio::piped()).spawn().expect("spawn");
+        let t0 = std::time::Instant::now();
+        let status = loop {
+            match child.try_wait().expect("wait") {
+                Some(st) => break Some(st),
+                None if t0.elapsed().as_secs() >= 10 => { let _ = child.kill(); let _ = child.wait(); break None; }
+                None => std::thread::sleep(std::time::Duration::from_millis(20)),
+            }
+        };
+        let case = format!("format_number({v}, scale: {scale:?})");
+        match status {
+            None => { bad += 1; fail("format_number", &case, "returns promptly", "still running after 10 s (killed)"); }
+            Some(st) if st.code() == Some(0) => {}
+            Some(st) if st.code() == Some(1) => { bad += 1; }
+            Some(st) => {
+                bad += 1;
+                let mut err = String::new();
+                if let Some(mut e) = child.stderr.take() { use std::io::Read; let _ = e.read_to_string(&mut err); }
+                let line = err.lines().find(|l| l.contains("panicked") || l.contains("memory allocation")).unwrap_or("").to_string();
+                fail("format_number", &case, "returns a string", &format!("process ended with {st}: {line}"));
+            }
+        }
+    }
+    bad
+}
+
 fn main() {
     let unit = std::env::args().nth(1).unwrap_or_default();
+    if unit == "format_number_case" {
+        let i: usize = std::env::args().nth(2).and_then(|s| s.parse().ok()).unwrap_or(0);
+        std::process::exit(format_number_case(i) as i32);
+    }
     let bad = match unit.as_str() {
         "crud_vec" => crud_vec(),
         "crud_paths" => crud_paths(),
@@ -772,6 +836,7 @@ fn main() {
         "op_typing" => op_typing(),
         "string_arith" => string_arith(),
         "collection_laws" => collection_laws(),
+        "format_number" => format_number(),
         _ => {
             eprintln!("unknown witness unit {unit}");
             std::process::exit(2);
